@@ -159,7 +159,40 @@ func runC19(c *Ctx) {
 	isExt := func(fn *types.Func, name string) bool {
 		return fn.Pkg() != nil && fn.Pkg().Path() == dcPkg.Path() && fn.Name() == name
 	}
-	tOpen := absint.Tabulate(absint.Config{P: P, Dims: openDims,
+	// mapping helpers: same-package functions with results whose signature mentions datachannel.ChannelType or
+	// datachannel.Config (by value or pointer) are interpreted, so that moving either table into a helper
+	// (reliabilityFromChannelConfig, channelTypeFor, ...) does not hide it from the tabulation.
+	mentionsDC := func(t types.Type) bool {
+		for {
+			if p, ok := t.(*types.Pointer); ok {
+				t = p.Elem()
+				continue
+			}
+			break
+		}
+		return types.Identical(t, ctObj.Type()) || types.Identical(t, cfgObj.Type())
+	}
+	mappingHelper := func(fn *types.Func) bool {
+		if fn.Pkg() == nil || fn.Pkg() != P.Pkg("").Types {
+			return false
+		}
+		sig, _ := fn.Type().(*types.Signature)
+		if sig == nil || sig.Results().Len() == 0 {
+			return false
+		}
+		for i := 0; i < sig.Params().Len(); i++ {
+			if mentionsDC(sig.Params().At(i).Type()) {
+				return true
+			}
+		}
+		for i := 0; i < sig.Results().Len(); i++ {
+			if mentionsDC(sig.Results().At(i).Type()) {
+				return true
+			}
+		}
+		return false
+	}
+	tOpen := absint.Tabulate(absint.Config{P: P, Dims: openDims, Inline: mappingHelper,
 		WatchLit: func(t types.Type, f map[string]absint.Val) string {
 			if types.Identical(t, cfgObj.Type()) {
 				return label("cfg", f, "ChannelType", "ReliabilityParameter", "Label", "Protocol", "Negotiated")
@@ -261,7 +294,7 @@ func runC19(c *Ctx) {
 		r.Undecided("C19.R1", "accept|table", posAcc, "the loop calling datachannel.Accept was not found")
 		return
 	}
-	tAcc := absint.TabulateGraph(absint.Config{P: P, Dims: []absint.Dim{{Key: "$dc.Config.ChannelType", Domain: ctDom}}, MaxPaths: 400000,
+	tAcc := absint.TabulateGraph(absint.Config{P: P, Dims: []absint.Dim{{Key: "$dc.Config.ChannelType", Domain: ctDom}}, MaxPaths: 400000, Inline: mappingHelper,
 		OnCall: func(in *absint.Interp, st *absint.State, call *ast.CallExpr, fn *types.Func, recv absint.Val, args []absint.Val) (absint.Val, bool) {
 			if isExt(fn, "Accept") {
 				return absint.Tuple{absint.Ref{Path: "$dc", NonNilRef: true}, absint.Nil{}}, true
